@@ -107,7 +107,48 @@ def nontrivial(name, target, facts):
     return name == "fold" or any(t >= 2 or t == 0 for t in trips)
 
 
-CHECK = dt.TransCheck(PROP, SPEC, PROFILE, nontrivial=nontrivial)
+def fuse_facts(name, otarget, orig_out, got):
+    """Input-side features of a fusion target (for classifiers)."""
+    if name != "fuse":
+        return {}
+    from psyclone.psyir.backend.fortran import FortranWriter
+    from psyclone.psyir.nodes import (ArrayReference, Assignment, CodeBlock,
+                                      Return)
+    wrt = FortranWriter()
+    first, second = otarget
+    facts = {"early_exit": bool(first.walk((Return, CodeBlock)) or
+                                second.walk((Return, CodeBlock)))}
+
+    def accesses(loop):
+        written, used = {}, {}
+        for ref in loop.walk(ArrayReference):
+            txt = ",".join(wrt(i) for i in ref.indices)
+            used.setdefault(ref.symbol.name.lower(), set()).add(txt)
+            par = ref.parent
+            if isinstance(par, Assignment) and par.lhs is ref:
+                written.setdefault(ref.symbol.name.lower(), set()).add(txt)
+        return written, used
+    wr1, us1 = accesses(first)
+    wr2, us2 = accesses(second)
+    var1 = first.variable.name.lower()
+    var2 = second.variable.name.lower()
+
+    def norm(txts, var):
+        import re
+        return {re.sub(r"\b" + re.escape(var) + r"\b", "@", t) for t in txts}
+    mismatch = False
+    for arr in set(wr1) | set(wr2):
+        if arr in us1 and arr in us2:
+            all1 = norm(us1[arr], var1)
+            all2 = norm(us2[arr], var2)
+            if len(all1 | all2) > 1:
+                mismatch = True
+    facts["array_index_mismatch"] = mismatch
+    return facts
+
+
+CHECK = dt.TransCheck(PROP, SPEC, PROFILE, nontrivial=nontrivial,
+                      facts=fuse_facts)
 
 
 # ---- known-finding classifiers (features of the failing INPUT) --------
@@ -123,6 +164,13 @@ def _zero_trip(case):
 CLASSIFIERS = {
     "hoist_zero_trip": lambda c: _is(c, "hoist") and _zero_trip(c),
     "replace_zero_trip": lambda c: _is(c, "replace") and _zero_trip(c),
+    # an array written in one of the fused loops is accessed in both loops
+    # through different subscripts (no dependence-distance check)
+    "fuse_array_index_mismatch": lambda c: _is(c, "fuse") and
+    bool(c.get("facts", {}).get("array_index_mismatch")),
+    # one of the fused loops contains RETURN / EXIT / CYCLE
+    "fuse_early_exit": lambda c: _is(c, "fuse") and
+    bool(c.get("facts", {}).get("early_exit")),
 }
 
 
